@@ -395,3 +395,99 @@ def disable_lines(tool=_LINE_TOOL):
         mon.free_tool_id(tool)
     except Exception:
         pass
+
+
+# ------------------------------------------------ scheduler-aware locks
+class SchedLock:
+    """threading.Lock look-alike whose waiting is visible to the
+    scheduler (a lock held by a descheduled actor must not block the running
+    one outside the scheduler's control)."""
+
+    def __init__(self, sched, reentrant=False):
+        self.sched = sched
+        self.owner = None
+        self.reentrant = reentrant
+        self.depth = 0
+
+    def acquire(self, blocking=True, timeout=-1):
+        me = self.sched.me()
+        if self.reentrant and self.owner is not None and self.owner == (
+                me if me is not None else -1):
+            self.depth += 1
+            return True
+        if self.owner is not None:
+            if not blocking:
+                return False
+            if me is not None:
+                self.sched.block_until(lambda: self.owner is None, 'lock')
+        self.owner = me if me is not None else -1
+        self.depth = 1
+        return True
+
+    def release(self):
+        self.depth -= 1
+        if self.depth <= 0:
+            self.owner = None
+            self.depth = 0
+
+    __enter__ = acquire
+
+    def __exit__(self, *a):
+        self.release()
+
+    def locked(self):
+        return self.owner is not None
+
+
+class _ThreadingProxy:
+    """Stands in for the `threading` module inside the modules under test:
+    locks they create while a schedule runs are scheduler-aware."""
+
+    def __init__(self, sched):
+        import threading as _t
+        self._t = _t
+        self._sched = sched
+
+    def Lock(self):
+        return SchedLock(self._sched)
+
+    def RLock(self):
+        return SchedLock(self._sched, reentrant=True)
+
+    def __getattr__(self, name):
+        return getattr(self._t, name)
+
+
+def patch_module_locks(sched, modules):
+    """Returns an undo function."""
+    proxy = _ThreadingProxy(sched)
+    saved = []
+    for m in modules:
+        if getattr(m, 'threading', None) is not None:
+            saved.append((m, m.threading))
+            m.threading = proxy
+
+    def undo():
+        for m, orig in saved:
+            m.threading = orig
+    return undo
+
+
+def report_abort(ctx, sched, wit, what='schedule did not complete'):
+    """A schedule that did not finish: 'deadlock' is the scheduler's own
+    finding (every actor is blocked on something it controls - locks, events,
+    waits): a violation.  Anything else ('timeout', 'step limit') means an
+    actor blocked or span outside the scheduler's control: the harness cannot
+    tell what that is - counted, and the run ends inconclusive."""
+    wit['aborted'] = sched.aborted
+    if sched.aborted == 'deadlock':
+        ctx.violation(None, '%s: deadlock (every actor is blocked)' % what,
+                      wit)
+    else:
+        ctx.count('schedules_stuck_outside_the_scheduler')
+        ctx.extra.setdefault('stuck_schedules', [])
+        if len(ctx.extra['stuck_schedules']) < 3:
+            ctx.extra['stuck_schedules'].append(
+                {k: wit[k] for k in wit if k in ('causes', 'choices',
+                                                 'aborted', 'racers',
+                                                 'scenario', 'side')})
